@@ -142,6 +142,40 @@ func (c *Cluster) holdIfNeeded(e *Entry) {
 		}
 		e.Held = true
 		c.tryCompleteJoin(g)
+		if e.Held {
+			// A broker completes the join when the rebalance timeout expires, dropping the members that did
+			// not rejoin (a member whose connection was lost, a second instance that went away): without
+			// this a single lost connection would keep every later JoinGroup waiting for ever.
+			wait := time.Duration(req.RebalanceTimeoutMS) * time.Millisecond
+			if wait <= 0 {
+				wait = time.Duration(req.SessionTimeoutMS) * time.Millisecond
+			}
+			gid := g.ID
+			time.AfterFunc(wait, func() {
+				c.mu.Lock()
+				g2 := c.Groups[gid]
+				changed := false
+				if g2 != nil && e.Held && !e.done && g2.State == "PreparingRebalance" {
+					for _, oid := range g2.memberIDs() {
+						if om := g2.Members[oid]; om != nil && om.joinReq == nil {
+							c.removeMember(g2, oid, "rebalance-timeout", -1)
+							changed = true
+						}
+					}
+					if changed {
+						c.releaseBarriers()
+					}
+				}
+				auto := c.Auto
+				c.mu.Unlock()
+				if changed {
+					if auto {
+						c.autoAnswer()
+					}
+					c.event()
+				}
+			})
+		}
 		if c.Auto && e.Held {
 			// session expiry of members that do not rejoin (only emulated in auto mode; under the
 			// explorer eviction is an explicit environment event)
